@@ -185,3 +185,40 @@ def script_rhs(slot, n, nrhs, ld, cols, cplx, single=False):
     for c in cols:
         s += fmt_vals(c, cplx, single) + "\n"
     return s
+
+
+def sprank(M):
+    """structural rank (maximum bipartite matching columns->rows), iterative augmenting paths"""
+    n = M.n
+    adj = [[M.rowind[k] for k in range(M.colptr[j], M.colptr[j + 1])] for j in range(n)]
+    match_row = [-1] * n
+    def try_col(j):
+        seen = set(); stack = [(j, iter(adj[j]))]; path = []
+        # DFS with explicit stack, recording the alternating path
+        parent = {}
+        while stack:
+            c, it = stack[-1]
+            adv = False
+            for r in it:
+                if r in seen:
+                    continue
+                seen.add(r)
+                if match_row[r] == -1:
+                    # augment along the stack
+                    match_row[r] = c
+                    for k in range(len(stack) - 1, 0, -1):
+                        pc = stack[k - 1][0]; pr = parent[stack[k][0]]
+                        match_row[pr] = pc
+                    return True
+                nxt = match_row[r]
+                parent[nxt] = r
+                stack.append((nxt, iter(adj[nxt]))); adv = True
+                break
+            if not adv:
+                stack.pop()
+        return False
+    rank = 0
+    for j in range(n):
+        if try_col(j):
+            rank += 1
+    return rank
